@@ -62,3 +62,5 @@ def run(project, rep):
     from .. import rules_header as H
     rep.rule("V-R10", "character data is decoded with the codec the header's CHARSET names (H-R2)")
     rep.run(H.h_r2, project, rep)
+    from .. import rules_values as _V15
+    rep.run(_V15.v_r15_no_html5_entity_decoder, project, rep)
